@@ -161,6 +161,14 @@ def run(tier, repo):
             elif cls == "unwrap":
                 ok, why = take_n_array(F, pf, node)
                 rp.check(ok, "PANIC-SITE", key + "/" + text_key(node), where, "unwrap/expect can panic: " + why, why_ok="TAKE-N-ARRAY: " + why)
+            elif cls == "slice-op" and cal.endswith("::split_at") and node.get("k") == "mcall":
+                base = fw.ev.sym(node["recv"], env, {})
+                if base[0] == "tok":
+                    base = ["tokbytes"] + base[1:]
+                mid = fw.ev.sym(node["args"][0], env, {})
+                why = entails_le(fs, mid, ["len", base])
+                rp.check(why is not None, "PANIC-SITE", key + "/" + text_key(node), where, "split_at(%s) can exceed the slice: no dominating guard establishes %s <= len" % (sym_str(mid), sym_str(mid)),
+                         found=[sym_str(q) for q in fs][:6], why_ok="GUARDED-SLICE: " + str(why))
             elif cls == "chunks":
                 arg = strip(node["args"][0]) if node.get("args") else {}
                 ok = arg.get("k") == "lit" and arg.get("v", 0) > 0
